@@ -87,8 +87,8 @@ Qed.
 
 Lemma show_Z_ascii z : Forall ascii (show_Z z).
 Proof.
-  destruct z; simpl.
-  - repeat constructor. unfold ascii; lia.
+  destruct z; cbn [show_Z]; unfold show_N.
+  - constructor; [unfold ascii; lia|constructor].
   - apply digits_ascii. constructor.
   - constructor; [unfold ascii; lia|apply digits_ascii; constructor].
 Qed.
@@ -176,4 +176,1044 @@ Proof.
   inversion H; subst. rewrite unquote_text_quote; auto.
   - eapply to_bytes_decodes; eassumption.
   - eapply to_bytes_bytes; eassumption.
+Qed.
+
+(* ------------------------------------------------------------ facts about the regenerated constants *)
+Definition good_safe (safe : text) : bool :=
+  forallb (fun c => c <? 128) safe && negb (is_safe safe 37).
+Definition path_safe_ok (safe : text) : bool :=
+  good_safe safe && forallb path_char safe && never safe 63 && never safe 35.
+Definition segment_safe_ok (safe : text) : bool := path_safe_ok safe && never safe 47.
+Definition query_safe_ok (safe : text) : bool :=
+  good_safe safe && forallb query_char safe && never safe 35.
+
+Lemma Facts_ok_script_name_safe : path_safe_ok script_name_safe = true.
+Proof. vm_compute. reflexivity. Qed.
+Lemma Facts_ok_join_elements_safe : segment_safe_ok join_elements_safe = true.
+Proof. vm_compute. reflexivity. Qed.
+Lemma Facts_ok_path_tuple_safe : segment_safe_ok path_tuple_safe = true.
+Proof. vm_compute. reflexivity. Qed.
+Lemma Facts_ok_compile_safe :
+  path_safe_ok compile_prefix_safe && path_safe_ok compile_literal_safe && path_safe_ok compile_value_safe = true.
+Proof. vm_compute. reflexivity. Qed.
+Lemma Facts_ok_query_str_safe : query_safe_ok query_str_safe = true.
+Proof. vm_compute. reflexivity. Qed.
+Lemma Facts_ok_anchor_quote_safe : query_safe_ok anchor_quote_safe = true.
+Proof. vm_compute. reflexivity. Qed.
+(* quote_plus: '%', '&', '=', '+', '#' are never produced raw (space becomes '+') *)
+Lemma Facts_ok_quote_plus_safe :
+  let s := quote_plus_default_safe ++ [32] in
+  good_safe s && never s 38 && never s 61 && never s 43 && never s 35
+  && forallb (fun c => query_char c || (c =? 32)) s = true.
+Proof. vm_compute. reflexivity. Qed.
+Lemma Facts_ok_quote_via : urlencode_quote_via_is_quote_plus = true.
+Proof. reflexivity. Qed.
+Lemma Facts_ok_separators :
+  elements_sep = [47] /\ kv_sep = [61] /\ pair_sep = [38] /\ qs_prefix = [63] /\ frag_prefix = [35]
+  /\ port_sep = [58] /\ scheme_sep = [58; 47; 47].
+Proof. repeat split; reflexivity. Qed.
+(* the module constants named by the property *)
+Lemma Facts_ok_module_sets :
+  query_safe_ok query_safe && query_safe_ok anchor_safe && path_safe_ok path_safe && segment_safe_ok path_segment_safe = true.
+Proof. vm_compute. reflexivity. Qed.
+(* every *_path helper puts the quoted script name into _app_url *)
+Lemma Facts_ok_path_helpers_quote_script :
+  route_path_script_quoted && resource_path_script_quoted && static_path_script_quoted
+  && current_route_path_script_quoted = true.
+Proof. reflexivity. Qed.
+Lemma Facts_ok_route_path : route_path_script_quoted = true. Proof. reflexivity. Qed.
+Lemma Facts_ok_resource_path : resource_path_script_quoted = true. Proof. reflexivity. Qed.
+Lemma Facts_ok_static_path : static_path_script_quoted = true. Proof. reflexivity. Qed.
+Lemma Facts_ok_current_route_path : current_route_path_script_quoted = true. Proof. reflexivity. Qed.
+(* a scheme override implies exactly the port that is then elided *)
+Lemma Facts_ok_port_tables : implied_ports = rfc_default_ports /\ elided_ports = rfc_default_ports.
+Proof. split; reflexivity. Qed.
+
+Lemma good_safe_spec safe : good_safe safe = true -> ascii_set safe /\ is_safe safe 37 = false.
+Proof.
+  unfold good_safe. intros H. apply andb_true_iff in H. destruct H as [H1 H2].
+  apply negb_true_iff in H2. split; [|assumption].
+  unfold ascii_set. apply Forall_forall. intros c Hc. rewrite forallb_forall in H1.
+  specialize (H1 c Hc). unfold ascii. lia.
+Qed.
+
+(* ------------------------------------------------------------ literals survive '%' formatting *)
+Lemma undouble_double s : undouble_pct (double_pct s) = Some s.
+Proof.
+  induction s as [|c r IH]; [reflexivity|].
+  unfold double_pct in *. simpl flat_map. destruct (c =? 37) eqn:E.
+  - apply N.eqb_eq in E. subst c. simpl. rewrite IH. reflexivity.
+  - simpl. rewrite E, IH. reflexivity.
+Qed.
+
+(* ------------------------------------------------------------ anchor *)
+Theorem anchor_roundtrip v f a :
+  wf_val v -> fragment (Some v) = Ok f -> spec_anchor (Some v) = Some a ->
+  (a = [] /\ f = []) \/ (exists q, f = 35 :: q /\ ~ In 35 q /\ unquote_text q = Some a).
+Proof.
+  pose proof Facts_ok_anchor_quote_safe as HF. unfold query_safe_ok in HF.
+  apply andb_true_iff in HF. destruct HF as [HF Hn35]. apply andb_true_iff in HF. destruct HF as [Hg _].
+  apply good_safe_spec in Hg. destruct Hg as [Ha H37].
+  intros Hw H Hs. unfold fragment in H. unfold spec_anchor in Hs. destruct (truthy v) eqn:Et.
+  - right. apply rbind_ok in H. destruct H as (q & Hq & H). inversion H; subst. exists q.
+    split; [reflexivity|]. split.
+    + unfold url_quote in Hq. apply rbind_ok in Hq. destruct Hq as (b & Hb & Hq). inversion Hq; subst.
+      apply quote_never; [eapply to_bytes_bytes; eassumption|assumption].
+    + eapply url_quote_roundtrip; eassumption.
+  - left. inversion H; inversion Hs; auto.
+Qed.
+
+(* ------------------------------------------------------------ elements *)
+Lemma qps_ok safe v q :
+  quote_path_segment safe v = Ok q ->
+  exists t, text_of v = Ok t /\ forallb valid_scalar t = true /\ q = quote safe (encode t).
+Proof.
+  unfold quote_path_segment. intros H. apply rbind_ok in H. destruct H as (t & Ht & H).
+  apply rbind_ok in H. destruct H as (b & Hb & H). apply utf8_enc_ok in Hb. destruct Hb as [Hv ->].
+  inversion H; subst. eauto.
+Qed.
+
+Lemma text_of_spec v t : text_of v = Ok t -> forallb valid_scalar t = true -> spec_text v = Some t.
+Proof.
+  destruct v as [t'|b|z|k s]; simpl; intros H Hv.
+  - inversion H; subst. rewrite Hv. reflexivity.
+  - unfold utf8_dec in H. destruct (decode b); inversion H; reflexivity.
+  - inversion H; reflexivity.
+  - inversion H; subst. rewrite Hv. reflexivity.
+Qed.
+
+(* a produced segment decodes to the supplied text and contains no separator *)
+Lemma qps_roundtrip safe v q :
+  good_safe safe = true -> quote_path_segment safe v = Ok q ->
+  exists t, spec_text v = Some t /\ unquote_text q = Some t /\ Forall ascii q
+            /\ (forall c, never safe c = true -> ~ In c q).
+Proof.
+  intros Hg H. apply good_safe_spec in Hg. destruct Hg as [Ha H37].
+  apply qps_ok in H. destruct H as (t & Ht & Hv & ->). exists t.
+  pose proof (encode_bytes t Hv) as Hb.
+  split; [apply text_of_spec; assumption|]. split.
+  - rewrite unquote_text_quote by assumption. apply decode_encode; assumption.
+  - split; [apply quote_ascii; assumption|]. intros c Hc. apply quote_never; assumption.
+Qed.
+
+Theorem elements_roundtrip els s :
+  els <> [] -> join_elements els = Ok s ->
+  exists ts, spec_elements els = Some ts /\ decode_segments s = Some ts.
+Proof.
+  pose proof Facts_ok_join_elements_safe as HF. unfold segment_safe_ok, path_safe_ok in HF.
+  apply andb_true_iff in HF. destruct HF as [HF H47]. apply andb_true_iff in HF. destruct HF as [HF _].
+  apply andb_true_iff in HF. destruct HF as [HF _]. apply andb_true_iff in HF. destruct HF as [Hg _].
+  intros Hne H. unfold join_elements in H. apply rbind_ok in H. destruct H as (qs & Hqs & H).
+  inversion H; subst. clear H. apply mapM_ok in Hqs.
+  assert (HH : exists ts, Forall2 (fun v t => spec_text v = Some t) els ts
+                          /\ Forall2 (fun q t => unquote_text q = Some t) qs ts
+                          /\ Forall (fun q => ~ In 47 q) qs).
+  { clear Hne. induction Hqs as [|v q els' qs' Hq _ IH].
+    - exists []. repeat split; constructor.
+    - destruct IH as (ts & I1 & I2 & I3).
+      destruct (qps_roundtrip _ _ _ Hg Hq) as (t & T1 & T2 & _ & T4).
+      exists (t :: ts). repeat split; constructor; auto. }
+  destruct HH as (ts & H1 & H2 & H3). exists ts. split.
+  - unfold spec_elements. apply map_opt_some. assumption.
+  - unfold decode_segments. replace elements_sep with [47] by reflexivity.
+    rewrite split_join; [apply map_opt_some; assumption| |assumption].
+    intros ->. inversion Hqs; subst. contradiction.
+Qed.
+
+(* ------------------------------------------------------------ query *)
+Lemma split_on_app c a b : split_on c (a ++ c :: b) = split_on c a ++ split_on c b.
+Proof.
+  induction a as [|x a IH]; simpl.
+  - rewrite N.eqb_refl. reflexivity.
+  - destruct (N.eqb x c); [rewrite IH; reflexivity|].
+    rewrite IH. pose proof (split_on_nonempty c a) as Hn.
+    destruct (split_on c a) as [|h t]; [contradiction|reflexivity].
+Qed.
+
+Lemma filter_app' {A} (f : A -> bool) l1 l2 : filter f (l1 ++ l2) = filter f l1 ++ filter f l2.
+Proof. induction l1 as [|x r IH]; simpl; [reflexivity|]. destruct (f x); simpl; rewrite IH; reflexivity. Qed.
+
+Lemma parse_qsl_app a b :
+  parse_qsl (a ++ 38 :: b) =
+  match parse_qsl a, parse_qsl b with Some x, Some y => Some (x ++ y) | _, _ => None end.
+Proof. unfold parse_qsl. rewrite split_on_app, filter_app', map_opt_app. reflexivity. Qed.
+
+Lemma parse_qsl_nil : parse_qsl [] = Some [].
+Proof. reflexivity. Qed.
+
+Lemma parse_qsl_item it p :
+  ~ In 38 it -> it <> [] -> parse_item it = Some p -> parse_qsl it = Some [p].
+Proof.
+  intros H1 H2 H3. unfold parse_qsl. rewrite split_on_nosep_id by assumption.
+  destruct it; [contradiction|]. simpl. rewrite H3. reflexivity.
+Qed.
+
+Lemma cut_app c a b : ~ In c a -> cut c (a ++ c :: b) = (a, Some b).
+Proof.
+  induction a as [|x a IH]; simpl; intros H.
+  - rewrite N.eqb_refl. reflexivity.
+  - destruct (N.eqb_spec x c) as [->|Hne]; [exfalso; auto|]. rewrite IH by tauto. reflexivity.
+Qed.
+
+Lemma cut_none c a : ~ In c a -> cut c a = (a, None).
+Proof.
+  induction a as [|x a IH]; simpl; intros H; [reflexivity|].
+  destruct (N.eqb_spec x c) as [->|Hne]; [exfalso; auto|]. rewrite IH by tauto. reflexivity.
+Qed.
+
+Lemma unplus_plus s : ~ In 43 s -> map space_for_plus (map plus_for_space s) = s.
+Proof.
+  induction s as [|c r IH]; simpl; intros H; [reflexivity|]. rewrite IH by tauto. f_equal.
+  unfold space_for_plus, plus_for_space. destruct (c =? 32) eqn:E; [simpl; lia|].
+  destruct (c =? 43) eqn:E2; [exfalso; apply H; left; lia|reflexivity].
+Qed.
+
+Lemma in_map_plus c s : In c (map plus_for_space s) -> c <> 43 -> In c s.
+Proof.
+  intros H Hc. apply in_map_iff in H. destruct H as (y & Hy & Hin). unfold plus_for_space in Hy.
+  destruct (y =? 32) eqn:E; [congruence|subst; assumption].
+Qed.
+
+(* one quoted key or value: decodes back, has no '&', '=', '#' *)
+Lemma quote_plus_roundtrip v q a :
+  wf_val v -> quote_via v = Ok q -> spec_text v = Some a ->
+  unquote_plus_text q = Some a /\ ~ In 38 q /\ ~ In 61 q /\ ~ In 35 q.
+Proof.
+  pose proof Facts_ok_quote_plus_safe as HF. cbv zeta in HF.
+  do 5 (apply andb_true_iff in HF; let H := fresh "HF" in destruct HF as [HF H]).
+  apply good_safe_spec in HF. destruct HF as [Ha H37].
+  intros Hw H Hs. unfold quote_via in H. rewrite Facts_ok_quote_via in H. unfold quote_plus in H.
+  apply rbind_ok in H. destruct H as (b & Hb & H). inversion H; subst. clear H.
+  pose proof (to_bytes_bytes _ _ Hw Hb) as Hbytes. unfold quote_plus_bytes.
+  set (s := quote_plus_default_safe ++ [32]) in *.
+  assert (N43 : ~ In 43 (quote s b)) by (apply quote_never; assumption).
+  split; [|split; [|split]].
+  - unfold unquote_plus_text. rewrite unplus_plus by assumption.
+    rewrite unquote_text_quote by assumption. eapply to_bytes_decodes; eassumption.
+  - intros Hin. apply in_map_plus in Hin; [|lia]. revert Hin. apply quote_never; assumption.
+  - intros Hin. apply in_map_plus in Hin; [|lia]. revert Hin. apply quote_never; assumption.
+  - intros Hin. apply in_map_plus in Hin; [|lia]. revert Hin. apply quote_never; assumption.
+Qed.
+
+Definition wf_qval (v : qval) : Prop :=
+  match v with QVNone => True | QVScalar x => wf_val x | QVSeq l => Forall wf_val l end.
+Definition wf_pair (kv : pval * qval) : Prop := wf_val (fst kv) /\ wf_qval (snd kv).
+
+(* loop invariant of urlencode: the text so far parses to the pairs so far *)
+Definition qinv (st : text * text) (acc : list (text * text)) : Prop :=
+  parse_qsl (fst st) = Some acc /\ ~ In 35 (fst st) /\ ((snd st = [] /\ fst st = []) \/ snd st = [38]).
+
+Lemma emit_inv st acc k x ak ax :
+  qinv st acc -> ~ In 38 k -> ~ In 61 k -> ~ In 35 k -> ~ In 38 x -> ~ In 35 x ->
+  unquote_plus_text k = Some ak -> unquote_plus_text x = Some ax ->
+  qinv (emit st k x) (acc ++ [(ak, ax)]).
+Proof.
+  intros (Hp & H35 & Hs) Hk38 Hk61 Hk35 Hx38 Hx35 Hk Hx. unfold emit, qinv. cbn [fst snd].
+  replace kv_sep with [61] by reflexivity. replace pair_sep with [38] by reflexivity.
+  set (it := k ++ [61] ++ x).
+  assert (Hit : parse_qsl it = Some [(ak, ax)]).
+  { apply parse_qsl_item.
+    - unfold it. rewrite !in_app_iff. simpl. intros [H|[[H|[]]|H]]; auto; lia.
+    - unfold it. destruct k; discriminate.
+    - unfold parse_item, it. simpl app. rewrite cut_app by assumption. rewrite Hk, Hx. reflexivity. }
+  assert (Hit35 : ~ In 35 it).
+  { unfold it. rewrite !in_app_iff. simpl. intros [H|[[H|[]]|H]]; auto; lia. }
+  destruct Hs as [[Hs1 Hs2]|Hs].
+  - rewrite Hs1, Hs2. simpl app. fold it. rewrite Hs2 in Hp. rewrite parse_qsl_nil in Hp. inversion Hp; subst.
+    repeat split; auto.
+  - rewrite Hs. change (fst st ++ [38] ++ it) with (fst st ++ 38 :: it).
+    rewrite parse_qsl_app, Hp, Hit. repeat split; auto.
+    rewrite in_app_iff. simpl. intros [H|[H|H]]; auto; lia.
+Qed.
+
+Lemma emit_seq_inv l : forall st acc k ak st' xs,
+  qinv st acc -> ~ In 38 k -> ~ In 61 k -> ~ In 35 k -> unquote_plus_text k = Some ak ->
+  Forall wf_val l -> map_opt spec_text l = Some xs ->
+  emit_seq st k l = Ok st' ->
+  qinv st' (acc ++ map (fun x => (ak, x)) xs).
+Proof.
+  induction l as [|v r IH]; intros st acc k ak st' xs Hinv H1 H2 H3 Hk Hw Hs H; simpl in *.
+  - inversion H; inversion Hs; subst. simpl. rewrite app_nil_r. assumption.
+  - destruct (spec_text v) as [a|] eqn:Ea; [|discriminate].
+    destruct (map_opt spec_text r) as [as'|] eqn:Er; [|discriminate]. inversion Hs; subst. clear Hs.
+    inversion Hw as [|? ? Hwv Hwr]; subst. apply rbind_ok in H. destruct H as (qx & Hqx & H).
+    destruct (quote_plus_roundtrip _ _ _ Hwv Hqx Ea) as (Q1 & Q2 & Q3 & Q4).
+    simpl map. replace (acc ++ (ak, a) :: map (fun x => (ak, x)) as') with ((acc ++ [(ak, a)]) ++ map (fun x => (ak, x)) as')
+      by (rewrite <- app_assoc; reflexivity).
+    apply (IH (emit st k qx) (acc ++ [(ak, a)]) k ak st' as'); auto. apply emit_inv; assumption.
+Qed.
+
+Lemma urlencode_step_inv st acc kv st' ps :
+  qinv st acc -> wf_pair kv -> spec_pair kv = Some ps -> urlencode_step st kv = Ok st' ->
+  qinv st' (acc ++ ps).
+Proof.
+  intros Hinv [Hwk Hwv] Hs H. unfold urlencode_step in H. apply rbind_ok in H. destruct H as (k & Hk & H).
+  apply rbind_ok in H. destruct H as (st1 & H1 & H). inversion H; subst. clear H.
+  unfold spec_pair in Hs. destruct (spec_text (fst kv)) as [ak|] eqn:Eak; [|discriminate]. simpl in Hs.
+  destruct (quote_plus_roundtrip _ _ _ Hwk Hk Eak) as (K1 & K2 & K3 & K4).
+  assert (G : qinv st1 (acc ++ ps)).
+  { destruct (snd kv) as [|v|l] eqn:Ev; simpl in Hwv.
+    - inversion H1; inversion Hs; subst. apply emit_inv; auto.
+    - destruct v as [t|b|z|kk s]; try discriminate;
+        (destruct (spec_text _) as [ax|] eqn:Eax in Hs; [|discriminate]; simpl in Hs; inversion Hs; subst;
+         apply rbind_ok in H1; destruct H1 as (qv & Hqv & H1); inversion H1; subst;
+         destruct (quote_plus_roundtrip _ _ _ Hwv Hqv Eax) as (V1 & V2 & V3 & V4);
+         apply emit_inv; auto).
+    - destruct (map_opt spec_text l) as [xs|] eqn:Exs; [|discriminate]. simpl in Hs. inversion Hs; subst.
+      eapply emit_seq_inv; eassumption. }
+  destruct G as (G1 & G2 & G3). unfold qinv. cbn [fst snd]. repeat split; auto.
+Qed.
+
+Lemma urlencode_loop_inv l : forall st acc st' pss,
+  qinv st acc -> Forall wf_pair l -> map_opt spec_pair l = Some pss -> urlencode_loop st l = Ok st' ->
+  qinv st' (acc ++ concat pss).
+Proof.
+  induction l as [|kv r IH]; intros st acc st' pss Hinv Hw Hs H; simpl in *.
+  - inversion H; inversion Hs; subst. simpl. rewrite app_nil_r. assumption.
+  - destruct (spec_pair kv) as [ps|] eqn:Ep; [|discriminate].
+    destruct (map_opt spec_pair r) as [pss'|] eqn:Er; [|discriminate]. inversion Hs; subst. clear Hs.
+    inversion Hw as [|? ? Hwkv Hwr]; subst. apply rbind_ok in H. destruct H as (st1 & H1 & H).
+    simpl concat. rewrite app_assoc. apply (IH st1 (acc ++ ps) st' pss'); auto.
+    eapply urlencode_step_inv; eassumption.
+Qed.
+
+(* pairs in order, repeated keys kept, sequence values expanded, None -> '' *)
+Theorem query_roundtrip l s ps :
+  Forall wf_pair l -> urlencode l = Ok s -> spec_pairs l = Some ps ->
+  parse_qsl s = Some ps /\ ~ In 35 s.
+Proof.
+  intros Hw H Hs. unfold urlencode in H. apply rbind_ok in H. destruct H as (st & Hst & H).
+  inversion H; subst. unfold spec_pairs in Hs.
+  destruct (map_opt spec_pair l) as [pss|] eqn:E; [|discriminate]. simpl in Hs. inversion Hs; subst.
+  assert (I0 : qinv ([], []) []) by (unfold qinv; simpl; repeat split; auto).
+  destruct (urlencode_loop_inv l _ _ _ _ I0 Hw E Hst) as (G1 & G2 & _). auto.
+Qed.
+
+(* a string query is percent-quoted as a whole: decoding it gives the string back *)
+Theorem query_string_roundtrip t s :
+  forallb valid_scalar t = true -> url_quote query_str_safe (PStr t) = Ok s ->
+  unquote_text s = Some t /\ ~ In 35 s.
+Proof.
+  pose proof Facts_ok_query_str_safe as HF. unfold query_safe_ok in HF.
+  apply andb_true_iff in HF. destruct HF as [HF Hn35]. apply andb_true_iff in HF. destruct HF as [Hg _].
+  apply good_safe_spec in Hg. destruct Hg as [Ha H37]. intros Hv H. split.
+  - eapply url_quote_roundtrip; try eassumption; [exact I|]. simpl. rewrite Hv. reflexivity.
+  - unfold url_quote in H. apply rbind_ok in H. destruct H as (b & Hb & H). inversion H; subst.
+    apply quote_never; [|assumption]. eapply (to_bytes_bytes (PStr t)); [exact I|eassumption].
+Qed.
+
+(* ------------------------------------------------------------ _app_url first; path = url minus authority *)
+Definition parse_app (e : env) (o : overrides) : res text :=
+  match o_app_url o with
+  | Some a => Ok a
+  | None => rlet s := quoted_script_name e in Ok (host_part e o ++ s)
+  end.
+
+Definition tail_parts (o : overrides) : res (text * text) :=
+  rlet qs := query_string (o_query o) in rlet fr := fragment (o_anchor o) in Ok (qs, fr).
+
+Lemma parse_url_overrides_eq e o :
+  parse_url_overrides e o =
+  rlet app := parse_app e o in rlet t := tail_parts o in Ok (app, fst t, snd t).
+Proof.
+  unfold parse_url_overrides, parse_app, tail_parts.
+  destruct (o_app_url o); simpl.
+  - destruct (query_string (o_query o)); simpl; [|reflexivity]. destruct (fragment (o_anchor o)); reflexivity.
+  - destruct (quoted_script_name e); simpl; [|reflexivity].
+    destruct (query_string (o_query o)); simpl; [|reflexivity]. destruct (fragment (o_anchor o)); reflexivity.
+Qed.
+
+(* every helper's result is  <application url> ++ rest, and rest does not depend on _app_url *)
+Lemma route_url_app c e rs n els o kw u :
+  route_url c e rs n els o kw = Ok u ->
+  exists app rest, parse_app e o = Ok app /\ u = app ++ rest /\
+                   forall a, route_url c e rs n els (set_app_url o a) kw = Ok (a ++ rest).
+Proof.
+  unfold route_url. destruct (assoc n rs) as [p|]; [|discriminate].
+  rewrite !parse_url_overrides_eq. intros H.
+  apply rbind_ok in H. destruct H as ([[app qs] fr] & H0 & H).
+  apply rbind_ok in H0. destruct H0 as (app' & Happ & H0). apply rbind_ok in H0. destruct H0 as (t & Ht & H0).
+  inversion H0; subst. clear H0.
+  apply rbind_ok in H. destruct H as (path & Hp & H). apply rbind_ok in H. destruct H as (sfx & Hs & H).
+  inversion H; subst. clear H.
+  exists app, (path ++ sfx ++ fst t ++ snd t). repeat split; auto.
+  intros a. rewrite parse_url_overrides_eq. unfold parse_app, tail_parts in *. simpl.
+  rewrite Ht. simpl. rewrite Hp. simpl. rewrite Hs. reflexivity.
+Qed.
+
+Lemma resource_url_app c e names els o u :
+  resource_url c e names els o = Ok u ->
+  exists app rest, parse_app e o = Ok app /\ u = app ++ rest /\
+                   forall a, resource_url c e names els (set_app_url o a) = Ok (a ++ rest).
+Proof.
+  unfold resource_url. intros H. apply rbind_ok in H. destruct H as (vp & Hvp & H).
+  rewrite parse_url_overrides_eq in H.
+  apply rbind_ok in H. destruct H as ([[app qs] fr] & H0 & H).
+  apply rbind_ok in H0. destruct H0 as (app' & Happ & H0). apply rbind_ok in H0. destruct H0 as (t & Ht & H0).
+  inversion H0; subst. clear H0. apply rbind_ok in H. destruct H as (sfx & Hs & H). inversion H; subst. clear H.
+  exists app, (vp ++ sfx ++ fst t ++ snd t). repeat split; auto.
+  intros a. rewrite Hvp. simpl. rewrite parse_url_overrides_eq. unfold parse_app, tail_parts in *. simpl.
+  rewrite Ht. simpl. rewrite Hs. reflexivity.
+Qed.
+
+Lemma parse_app_none e o app :
+  o_app_url o = None -> parse_app e o = Ok app ->
+  exists s, quoted_script_name e = Ok s /\ app = host_part e o ++ s.
+Proof.
+  unfold parse_app. intros ->. intros H. apply rbind_ok in H. destruct H as (s & Hs & H). inversion H; eauto.
+Qed.
+
+Theorem route_path_is_url_minus_authority c e rs n els o kw u :
+  o_app_url o = None -> route_url c e rs n els o kw = Ok u ->
+  exists p, route_path c e rs n els o kw = Ok p /\ u = host_part e o ++ p.
+Proof.
+  intros Ho H. destruct (route_url_app _ _ _ _ _ _ _ _ H) as (app & rest & Ha & -> & Hr).
+  destruct (parse_app_none _ _ _ Ho Ha) as (s & Hs & ->).
+  exists (s ++ rest). split; [|rewrite app_assoc; reflexivity].
+  unfold route_path, path_app_url. rewrite Facts_ok_route_path.
+  rewrite Hs. simpl. apply Hr.
+Qed.
+
+Theorem resource_path_is_url_minus_authority c e names els o u :
+  o_app_url o = None -> resource_url c e names els o = Ok u ->
+  exists p, resource_path c e names els o = Ok p /\ u = host_part e o ++ p.
+Proof.
+  intros Ho H. destruct (resource_url_app _ _ _ _ _ _ H) as (app & rest & Ha & -> & Hr).
+  destruct (parse_app_none _ _ _ Ho Ha) as (s & Hs & ->).
+  exists (s ++ rest). split; [|rewrite app_assoc; reflexivity].
+  unfold resource_path, path_app_url. rewrite Facts_ok_resource_path.
+  rewrite Hs. simpl. apply Hr.
+Qed.
+
+Theorem static_path_is_url_minus_authority e rs regs path o kw u :
+  o_app_url o = None -> static_url e rs regs path o kw = Ok u ->
+  exists p, static_path e rs regs path o kw = Ok p /\ u = host_part e o ++ p.
+Proof.
+  intros Ho H. unfold static_url in H. destruct (find_reg regs path) as [[sub rname]|] eqn:Ef; [|discriminate].
+  destruct (route_url_app _ _ _ _ _ _ _ _ H) as (app & rest & Ha & -> & Hr).
+  destruct (parse_app_none _ _ _ Ho Ha) as (s & Hs & ->).
+  exists (s ++ rest). split; [|rewrite app_assoc; reflexivity].
+  unfold static_path, path_app_url. rewrite Facts_ok_static_path.
+  rewrite Hs. simpl. unfold static_url. rewrite Ef. apply Hr.
+Qed.
+
+Lemma set_app_set_query o q a : set_app_url (set_query o q) a = set_query (set_app_url o a) q.
+Proof. reflexivity. Qed.
+
+Theorem current_route_path_is_url_minus_authority c e rs rname matched md gt els o kw u :
+  o_app_url o = None -> current_route_url c e rs rname matched md gt els o kw = Ok u ->
+  exists p, current_route_path c e rs rname matched md gt els o kw = Ok p /\ u = host_part e o ++ p.
+Proof.
+  intros Ho H. unfold current_route_url in H.
+  destruct (match rname with Some n => Some n | None => matched end) as [name|] eqn:En; [|discriminate].
+  set (o' := match o_query o with Some _ => o | None => set_query o (QPairs gt) end) in *.
+  assert (Ho' : o_app_url o' = None) by (unfold o'; destruct (o_query o); assumption).
+  assert (Hh : host_part e o' = host_part e o) by (unfold o'; destruct (o_query o); reflexivity).
+  destruct (route_url_app _ _ _ _ _ _ _ _ H) as (app & rest & Ha & -> & Hr).
+  destruct (parse_app_none _ _ _ Ho' Ha) as (s & Hs & ->).
+  exists (s ++ rest). split; [|rewrite app_assoc, Hh; reflexivity].
+  unfold current_route_path, path_app_url. rewrite Facts_ok_current_route_path.
+  rewrite Hs. simpl. unfold current_route_url. rewrite En.
+  replace (match o_query (set_app_url o s) with Some _ => set_app_url o s | None => set_query (set_app_url o s) (QPairs gt) end)
+    with (set_app_url o' s) by (unfold o'; simpl; destruct (o_query o); reflexivity).
+  apply Hr.
+Qed.
+
+(* an explicit application URL comes first, whatever scheme/host/port say *)
+Theorem app_url_precedence c e rs n els o kw u a :
+  o_app_url o = Some a -> route_url c e rs n els o kw = Ok u -> exists rest, u = a ++ rest.
+Proof.
+  intros Ho H. destruct (route_url_app _ _ _ _ _ _ _ _ H) as (app & rest & Ha & -> & _).
+  unfold parse_app in Ha. rewrite Ho in Ha. inversion Ha; subst. eauto.
+Qed.
+
+Theorem app_url_precedence_resource c e names els o u a :
+  o_app_url o = Some a -> resource_url c e names els o = Ok u -> exists rest, u = a ++ rest.
+Proof.
+  intros Ho H. destruct (resource_url_app _ _ _ _ _ _ H) as (app & rest & Ha & -> & _).
+  unfold parse_app in Ha. rewrite Ho in Ha. inversion Ha; subst. eauto.
+Qed.
+
+(* ------------------------------------------------------------ the lru_cache of _join_elements *)
+Definition plain (v : pval) : bool := match v with PNum _ _ => false | _ => true end.
+
+Lemma py_eq_plain a b : plain a = true -> plain b = true -> py_eq a b = true -> a = b.
+Proof.
+  destruct a, b; simpl; intros Ha Hb H; try discriminate.
+  - apply text_eqb_eq in H. congruence.
+  - apply text_eqb_eq in H. congruence.
+  - apply Z.eqb_eq in H. congruence.
+Qed.
+
+Lemma py_eq_list_plain a : forall b,
+  forallb plain a = true -> forallb plain b = true -> py_eq_list a b = true -> a = b.
+Proof.
+  induction a as [|x a IH]; destruct b as [|y b]; simpl; intros Ha Hb H; try discriminate; [reflexivity|].
+  apply andb_true_iff in Ha, Hb, H. destruct Ha, Hb, H. f_equal; [apply py_eq_plain|apply IH]; assumption.
+Qed.
+
+Lemma py_eq_refl a : py_eq a a = true.
+Proof. destruct a; simpl; try apply text_eqb_refl; apply Z.eqb_refl. Qed.
+Lemma py_eq_list_refl a : py_eq_list a a = true.
+Proof. induction a; simpl; [reflexivity|]. rewrite py_eq_refl; assumption. Qed.
+
+Definition cache_sound (c : jcache) : Prop := Forall (fun kr => join_elements (fst kr) = Ok (snd kr)) c.
+Definition cache_plain (c : jcache) : Prop := Forall (fun kr => forallb plain (fst kr) = true) c.
+
+Lemma cache_find_in c els r : cache_find c els = Some r -> exists k, In (k, r) c /\ py_eq_list els k = true.
+Proof.
+  induction c as [|[k r'] c IH]; simpl; [discriminate|].
+  destruct (py_eq_list els k) eqn:E.
+  - intros H; inversion H; subst. eauto.
+  - intros H. destruct (IH H) as (k' & Hin & He). eauto.
+Qed.
+
+Lemma warm_cache_sound w : cache_sound (warm_cache w).
+Proof.
+  unfold warm_cache. assert (G : forall c, cache_sound c -> cache_sound (fold_left warm_step w c)).
+  { induction w as [|els w IH]; intros c Hc; simpl; [assumption|]. apply IH. unfold warm_step.
+    destruct (cache_find c els); [assumption|]. destruct (join_elements els) eqn:E; [|assumption].
+    apply Forall_app. split; [assumption|]. constructor; [assumption|constructor]. }
+  apply G. constructor.
+Qed.
+
+(* str / bytes / int elements: the cache is transparent after any history of such calls *)
+Theorem join_elements_cache_transparent c els :
+  cache_sound c -> cache_plain c -> forallb plain els = true ->
+  join_elements_c c els = join_elements els.
+Proof.
+  intros Hs Hp He. unfold join_elements_c. destruct join_elements_key_stringified; [reflexivity|].
+  destruct (cache_find c els) as [r|] eqn:E; [|reflexivity].
+  destruct (cache_find_in _ _ _ E) as (k & Hin & Hk).
+  unfold cache_sound, cache_plain in *. rewrite Forall_forall in Hs, Hp.
+  specialize (Hs _ Hin). specialize (Hp _ Hin). simpl in *.
+  rewrite (py_eq_list_plain els k He Hp Hk). symmetry. assumption.
+Qed.
+
+(* with the key stringified there is no condition at all *)
+Theorem join_elements_cache_transparent_repaired c els :
+  join_elements_key_stringified = true -> join_elements_c c els = join_elements els.
+Proof. intros H. unfold join_elements_c. rewrite H. reflexivity. Qed.
+
+(* keyed on the raw tuple (the code before the repair) 1 and 1.0 collide *)
+Definition join_elements_raw_key (c : jcache) (els : list pval) : res text :=
+  match cache_find c els with Some r => Ok r | None => join_elements els end.
+Theorem join_elements_raw_key_refuted :
+  exists w els, join_elements_raw_key (warm_cache w) els <> join_elements els.
+Proof. exists [[PInt 1]], [PNum 1 [49; 46; 48]]. vm_compute. discriminate. Qed.
+
+(* the path form, computed after the url form, sees the same answer *)
+Lemma warm_step_same c els : join_elements_c (warm_step c els) els = join_elements_c c els.
+Proof.
+  unfold join_elements_c, warm_step. destruct join_elements_key_stringified; [reflexivity|].
+  destruct (cache_find c els) as [r|] eqn:E; [rewrite E; reflexivity|].
+  destruct (join_elements els) as [r|err] eqn:Ej; [|rewrite E; reflexivity].
+  assert (G : forall c', cache_find c' els = None -> cache_find (c' ++ [(els, r)]) els = Some r).
+  { induction c' as [|[k r'] c' IH]; simpl; [rewrite py_eq_list_refl; reflexivity|].
+    destruct (py_eq_list els k); [discriminate|assumption]. }
+  rewrite (G c E). reflexivity.
+Qed.
+
+(* ------------------------------------------------------------ scheme / host / port overrides *)
+Lemma before_no_colon s : has_colon s = false -> before 58 s = s.
+Proof.
+  intros H. unfold before. rewrite cut_none; [reflexivity|].
+  intros Hin. apply memN_In in Hin. unfold has_colon in H. congruence.
+Qed.
+
+Lemma with_port_elide u sch p :
+  with_port u (elide elided_ports sch (Some p)) =
+  u ++ match (match lookup elided_ports sch with
+              | Some d => if text_eqb p d then [] else p
+              | None => p end) with
+       | [] => [] | x => port_sep ++ x end.
+Proof.
+  unfold elide, with_port. destruct (lookup elided_ports sch) as [d|].
+  - destruct (text_eqb p d); [rewrite app_nil_r; reflexivity|].
+    destruct p; [rewrite app_nil_r|]; reflexivity.
+  - destruct p; [rewrite app_nil_r|]; reflexivity.
+Qed.
+
+(* the code's decisions are exactly the declarative rule [spec_authority] *)
+Ltac fin_port :=
+  rewrite with_port_elide, <- !app_assoc; do 3 f_equal;
+  match goal with |- match ?X with _ => _ end = _ => destruct X; reflexivity end.
+
+Theorem overrides_honoured e s h p : partial_host_url e s h p = spec_authority e s h p.
+Proof.
+  unfold partial_host_url, spec_authority, default_port.
+  rewrite <- (proj2 Facts_ok_port_tables). rewrite (proj1 Facts_ok_port_tables), <- (proj2 Facts_ok_port_tables).
+  set (hostport := match h with Some x => x | None => match e_http_host e with Some x => x | None => e_server_name e end end).
+  destruct s as [s|]; destruct p as [p|]; cbn beta iota zeta.
+  - destruct (has_colon hostport) eqn:Ec; [|rewrite before_no_colon by assumption]; fin_port.
+  - destruct (lookup elided_ports s) as [ip|] eqn:El;
+      (destruct (has_colon hostport) eqn:Ec; [|rewrite before_no_colon by assumption];
+       rewrite with_port_elide, ?El, ?text_eqb_refl, <- !app_assoc; do 3 f_equal;
+       try reflexivity;
+       match goal with |- match ?X with _ => _ end = _ => destruct X; reflexivity end).
+  - destruct (has_colon hostport) eqn:Ec; [|rewrite before_no_colon by assumption]; fin_port.
+  - destruct (has_colon hostport) eqn:Ec; [|rewrite before_no_colon by assumption]; fin_port.
+Qed.
+
+(* the effective values of the rule, named *)
+Definition eff_scheme (e : env) (s : option text) : text := match s with Some x => x | None => e_scheme e end.
+Definition eff_hostport (e : env) (h : option text) : text :=
+  match h with Some x => x | None => match e_http_host e with Some x => x | None => e_server_name e end end.
+Definition eff_port (e : env) (s h p : option text) : text :=
+  match p with
+  | Some x => x
+  | None => match (match s with Some x => default_port x | None => None end) with
+            | Some x => x
+            | None => if has_colon (eff_hostport e h) then after 58 (eff_hostport e h) else e_server_port e
+            end
+  end.
+
+(* default ports are elided; any other non-empty port is shown *)
+Theorem port_elision e s h p :
+  (default_port (eff_scheme e s) = Some (eff_port e s h p) \/ eff_port e s h p = [] ->
+   partial_host_url e s h p = eff_scheme e s ++ scheme_sep ++ before 58 (eff_hostport e h))
+  /\ (default_port (eff_scheme e s) <> Some (eff_port e s h p) -> eff_port e s h p <> [] ->
+      partial_host_url e s h p =
+      eff_scheme e s ++ scheme_sep ++ before 58 (eff_hostport e h) ++ port_sep ++ eff_port e s h p).
+Proof.
+  rewrite overrides_honoured. unfold spec_authority. fold (eff_scheme e s). fold (eff_hostport e h).
+  fold (eff_port e s h p). set (P := eff_port e s h p). set (D := default_port (eff_scheme e s)).
+  split.
+  - intros [H|H].
+    + rewrite H, text_eqb_refl, app_nil_r. reflexivity.
+    + rewrite H. destruct D as [d|]; [destruct (text_eqb [] d)|]; rewrite app_nil_r; reflexivity.
+  - intros H1 H2. destruct D as [d|].
+    + destruct (text_eqb_spec P d) as [->|Hne]; [congruence|]. destruct P; [congruence|reflexivity].
+    + destruct P; [congruence|reflexivity].
+Qed.
+
+(* a scheme override without a port implies its default port, which is then elided *)
+Theorem scheme_override_default_port e s h d :
+  default_port s = Some d ->
+  partial_host_url e (Some s) h None = s ++ scheme_sep ++ before 58 (eff_hostport e h).
+Proof.
+  intros H. apply (proj1 (port_elision e (Some s) h None)). left.
+  unfold eff_scheme, eff_port. rewrite H. reflexivity.
+Qed.
+
+Example port_elision_table :
+  let e := mkEnv [104;116;116;112] (Some [104;58;56;48;56;48]) [115] [56;48;56;48] [] in   (* http, Host h:8080 *)
+  let https := [104;116;116;112;115] in let http := [104;116;116;112] in
+  partial_host_url e (Some https) None None = https ++ [58;47;47;104]
+  /\ partial_host_url e (Some http) None None = http ++ [58;47;47;104]
+  /\ partial_host_url e None None (Some [56;48]) = http ++ [58;47;47;104]
+  /\ partial_host_url e None None (Some [52;52;51]) = http ++ [58;47;47;104;58;52;52;51]
+  /\ partial_host_url e (Some https) None (Some [52;52;51]) = https ++ [58;47;47;104]
+  /\ partial_host_url e None (Some [120]) None = http ++ [58;47;47;120;58;56;48;56;48]
+  /\ partial_host_url e None (Some [120;58;57]) None = http ++ [58;47;47;120;58;57].
+Proof. vm_compute. repeat split. Qed.
+
+(* ------------------------------------------------------------ RFC 3986 character sets *)
+Definition pc (c : N) : Prop := path_char c = true.
+Definition qc (c : N) : Prop := query_char c = true.
+
+Lemma always_safe_unreserved c : always_safe c = true -> unreserved c = true.
+Proof. unfold always_safe, is_alnum, unreserved, is_alpha, is_digit. lia. Qed.
+Lemma hex_unreserved c : is_hex_upper c = true -> unreserved c = true.
+Proof. unfold is_hex_upper, unreserved, is_alpha, is_digit. lia. Qed.
+
+Lemma quote_chars (P : N -> bool) safe bs :
+  Forall byte bs -> (forall c, unreserved c = true -> P c = true) -> P 37 = true -> forallb P safe = true ->
+  Forall (fun c => P c = true) (quote safe bs).
+Proof.
+  intros Hb Hu H37 Hs. apply Forall_forall. intros c Hc.
+  destruct (quote_charset safe bs c Hb Hc) as [->|[H|H]]; [assumption|apply Hu, hex_unreserved; assumption|].
+  unfold is_safe in H. apply orb_true_iff in H. destruct H as [H|H].
+  - apply Hu, always_safe_unreserved; assumption.
+  - apply memN_In in H. rewrite forallb_forall in Hs. auto.
+Qed.
+
+Lemma unreserved_path c : unreserved c = true -> path_char c = true.
+Proof. intros H. unfold path_char, pchar. rewrite H. reflexivity. Qed.
+Lemma unreserved_query c : unreserved c = true -> query_char c = true.
+Proof. intros H. unfold query_char, pchar. rewrite H. reflexivity. Qed.
+
+Lemma path_safe_ok_parts safe : path_safe_ok safe = true ->
+  good_safe safe = true /\ forallb path_char safe = true /\ never safe 63 = true /\ never safe 35 = true.
+Proof.
+  unfold path_safe_ok. intros H. apply andb_true_iff in H. destruct H as [H H4].
+  apply andb_true_iff in H. destruct H as [H H3]. apply andb_true_iff in H. destruct H as [H1 H2]. auto.
+Qed.
+
+Lemma qps_chars safe v q : path_safe_ok safe = true -> quote_path_segment safe v = Ok q -> Forall pc q.
+Proof.
+  intros Hs H. apply path_safe_ok_parts in Hs. destruct Hs as (_ & Hs & _).
+  apply qps_ok in H. destruct H as (t & _ & Hv & ->).
+  apply (quote_chars path_char); auto; [apply encode_bytes; assumption|apply unreserved_path].
+Qed.
+
+Lemma Forall_join {P : N -> Prop} sep l : Forall (Forall P) l -> Forall P sep -> Forall P (join sep l).
+Proof.
+  intros Hl Hs. induction Hl as [|x r Hx Hr IH]; [constructor|].
+  destruct r as [|y r]; [assumption|].
+  change (Forall P (x ++ sep ++ join sep (y :: r))). repeat (apply Forall_app; split); auto.
+Qed.
+
+Lemma mapM_Forall {A B} (f : A -> res B) (P : B -> Prop) l ys :
+  (forall x y, f x = Ok y -> P y) -> mapM f l = Ok ys -> Forall P ys.
+Proof. intros Hf H. apply mapM_ok in H. induction H; constructor; eauto. Qed.
+
+Lemma pc47 : Forall pc [47]. Proof. repeat constructor. Qed.
+
+Theorem join_elements_chars els s : join_elements els = Ok s -> Forall pc s.
+Proof.
+  pose proof Facts_ok_join_elements_safe as HF. unfold segment_safe_ok in HF.
+  apply andb_true_iff in HF. destruct HF as [HF _].
+  unfold join_elements. intros H. apply rbind_ok in H. destruct H as (qs & Hqs & H). inversion H; subst.
+  replace elements_sep with [47] by reflexivity. apply Forall_join; [|apply pc47].
+  eapply mapM_Forall; [|eassumption]. intros x y. apply qps_chars; assumption.
+Qed.
+
+(* route.generate *)
+Definition lit_ok (t : tpart) : Prop :=
+  match t with TLit s => exists q, s = double_pct q /\ Forall pc q | TSlot _ => True end.
+
+Lemma compile_safe_parts :
+  path_safe_ok compile_prefix_safe = true /\ path_safe_ok compile_literal_safe = true
+  /\ path_safe_ok compile_value_safe = true.
+Proof.
+  pose proof Facts_ok_compile_safe as H. apply andb_true_iff in H. destruct H as [H H3].
+  apply andb_true_iff in H. destruct H as [H1 H2]. auto.
+Qed.
+
+Lemma lit_part_ok safe s t : path_safe_ok safe = true -> lit_part safe s = Ok t -> lit_ok t.
+Proof.
+  intros Hs H. unfold lit_part in H. apply rbind_ok in H. destruct H as (q & Hq & H). inversion H; subst.
+  simpl. exists q. split; [reflexivity|]. eapply qps_chars; eassumption.
+Qed.
+
+Lemma gen_template_ok p tpl : gen_template p = Ok tpl -> Forall lit_ok tpl.
+Proof.
+  destruct compile_safe_parts as (S1 & S2 & _).
+  unfold gen_template. intros H. apply rbind_ok in H. destruct H as (pre & Hpre & H).
+  apply rbind_ok in H. destruct H as (hs & Hhs & H). inversion H; subst. clear H.
+  constructor; [eapply lit_part_ok; eassumption|]. apply Forall_app. split.
+  - apply Forall_concat. eapply mapM_Forall; [|eassumption]. intros [n s] y Hy. simpl in Hy.
+    destruct s as [|c r]; [inversion Hy; subst; repeat constructor|].
+    apply rbind_ok in Hy. destruct Hy as (l & Hl & Hy). inversion Hy; subst.
+    repeat constructor. eapply lit_part_ok; eassumption.
+  - destruct (star_slot p); repeat constructor.
+Qed.
+
+Lemma q_value_chars v q : q_value v = Ok q -> Forall pc q.
+Proof. destruct compile_safe_parts as (_ & _ & S3). apply qps_chars; assumption. Qed.
+
+Lemma gen_value_chars b v q : gen_value b v = Ok q -> Forall pc q.
+Proof.
+  destruct v as [v|l shown]; simpl.
+  - destruct v; try apply q_value_chars.
+    intros H. apply rbind_ok in H. destruct H as (t & _ & H). eapply q_value_chars; eassumption.
+  - destruct b; [|apply q_value_chars].
+    intros H. apply rbind_ok in H. destruct H as (qs & Hqs & H). inversion H; subst.
+    apply Forall_join; [|apply pc47]. eapply mapM_Forall; [|eassumption]. intros x y. apply q_value_chars.
+Qed.
+
+Lemma assoc_in {A} n (d : list (text * A)) v : assoc n d = Some v -> exists k, In (k, v) d.
+Proof.
+  induction d as [|[k v'] d IH]; simpl; [discriminate|].
+  destruct (text_eqb n k); [intros H; inversion H; subst; eauto|].
+  intros H. destruct (IH H) as (k' & Hin). eauto.
+Qed.
+
+Theorem generate_chars p kw u : generate p kw = Ok u -> Forall pc u.
+Proof.
+  unfold generate. intros H. apply rbind_ok in H. destruct H as (tpl & Htpl & H).
+  apply rbind_ok in H. destruct H as (d & Hd & H). apply rbind_ok in H. destruct H as (parts & Hparts & H).
+  inversion H; subst. clear H. apply gen_template_ok in Htpl.
+  assert (Dok : Forall (fun kv => Forall pc (snd kv)) d).
+  { unfold build_newdict in Hd. eapply mapM_Forall; [|eassumption]. intros [k v] y Hy. simpl in Hy.
+    apply rbind_ok in Hy. destruct Hy as (q & Hq & Hy). inversion Hy; subst. simpl.
+    eapply gen_value_chars; eassumption. }
+  apply Forall_concat. apply mapM_ok in Hparts.
+  induction Hparts as [|t r tpl' parts' Hr _ IH]; [constructor|].
+  inversion Htpl as [|? ? Ht Htpl']; subst. constructor; [|apply IH; assumption].
+  destruct t as [s|n]; simpl in Hr.
+  - destruct Ht as (q & -> & Hq). rewrite undouble_double in Hr. inversion Hr; subst. assumption.
+  - destruct (assoc n d) as [v|] eqn:Ea; [|discriminate]. inversion Hr; subst.
+    destruct (assoc_in _ _ _ Ea) as (k & Hin). rewrite Forall_forall in Dok. apply (Dok _ Hin).
+Qed.
+
+(* script name *)
+Theorem quoted_script_chars e s : quoted_script_name e = Ok s -> Forall pc s.
+Proof.
+  pose proof Facts_ok_script_name_safe as HF. apply path_safe_ok_parts in HF. destruct HF as (_ & Hs & _).
+  unfold quoted_script_name. intros H. apply rbind_ok in H. destruct H as (b & Hb & H).
+  apply utf8_enc_ok in Hb. destruct Hb as [Hv ->]. unfold url_quote in H. simpl in H. inversion H; subst.
+  apply (quote_chars path_char); auto; [apply encode_bytes; assumption|apply unreserved_path].
+Qed.
+
+(* no '?' and no '#' among path characters *)
+Lemma pc_no_delims s : Forall pc s -> ~ In 63 s /\ ~ In 35 s.
+Proof.
+  intros H. rewrite Forall_forall in H. split; intros Hin; specialize (H _ Hin); unfold pc in H; vm_compute in H; discriminate.
+Qed.
+Lemma qc_no_hash s : Forall qc s -> ~ In 35 s.
+Proof. intros H. rewrite Forall_forall in H. intros Hin. specialize (H _ Hin). unfold qc in H. vm_compute in H. discriminate. Qed.
+
+(* query and fragment *)
+Lemma query_safe_ok_parts safe : query_safe_ok safe = true ->
+  good_safe safe = true /\ forallb query_char safe = true /\ never safe 35 = true.
+Proof.
+  unfold query_safe_ok. intros H. apply andb_true_iff in H. destruct H as [H H3].
+  apply andb_true_iff in H. destruct H as [H1 H2]. auto.
+Qed.
+
+Lemma url_quote_qchars safe v q :
+  query_safe_ok safe = true -> wf_val v -> url_quote safe v = Ok q -> Forall qc q.
+Proof.
+  intros Hs Hw H. apply query_safe_ok_parts in Hs. destruct Hs as (_ & Hs & _).
+  unfold url_quote in H. apply rbind_ok in H. destruct H as (b & Hb & H). inversion H; subst.
+  apply (quote_chars query_char); auto; [eapply to_bytes_bytes; eassumption|apply unreserved_query].
+Qed.
+
+Lemma quote_via_qchars v q : wf_val v -> quote_via v = Ok q -> Forall qc q.
+Proof.
+  pose proof Facts_ok_quote_plus_safe as HF. cbv zeta in HF.
+  apply andb_true_iff in HF. destruct HF as [_ HF].
+  intros Hw H. unfold quote_via in H. rewrite Facts_ok_quote_via in H. unfold quote_plus in H.
+  apply rbind_ok in H. destruct H as (b & Hb & H). inversion H; subst. unfold quote_plus_bytes.
+  assert (G : Forall (fun c => query_char c || (c =? 32) = true) (quote (quote_plus_default_safe ++ [32]) b)).
+  { apply (quote_chars (fun c => query_char c || (c =? 32))); auto.
+    - eapply to_bytes_bytes; eassumption.
+    - intros c Hc. rewrite (unreserved_query c Hc). reflexivity. }
+  apply Forall_forall. intros c Hc. apply in_map_iff in Hc. destruct Hc as (y & <- & Hy).
+  rewrite Forall_forall in G. specialize (G y Hy). cbv beta in G. unfold qc, plus_for_space.
+  destruct (y =? 32) eqn:E; [reflexivity|]. rewrite orb_false_r in G. assumption.
+Qed.
+
+Definition cinv (st : text * text) : Prop := Forall qc (fst st) /\ (snd st = [] \/ snd st = [38]).
+
+Lemma emit_cinv st k x : cinv st -> Forall qc k -> Forall qc x -> cinv (emit st k x).
+Proof.
+  intros [H1 H2] Hk Hx. unfold emit, cinv. cbn [fst snd]. split; [|right; reflexivity].
+  replace kv_sep with [61] by reflexivity.
+  repeat (apply Forall_app; split); auto; [|repeat constructor].
+  destruct H2 as [->| ->]; repeat constructor.
+Qed.
+
+Lemma emit_seq_cinv l : forall st k st',
+  cinv st -> Forall qc k -> Forall wf_val l -> emit_seq st k l = Ok st' -> cinv st'.
+Proof.
+  induction l as [|v r IH]; intros st k st' Hi Hk Hw H; simpl in H; [inversion H; subst; assumption|].
+  inversion Hw as [|? ? Hwv Hwr]; subst. apply rbind_ok in H. destruct H as (qx & Hqx & H).
+  eapply IH; [| |eassumption|eassumption]; [|assumption]. apply emit_cinv; auto. eapply quote_via_qchars; eassumption.
+Qed.
+
+Lemma show_byte_wf l : Forall wf_val (map (fun c => PInt (Z.of_N c)) l).
+Proof. induction l; simpl; constructor; simpl; auto. Qed.
+
+Theorem urlencode_chars l s : Forall wf_pair l -> urlencode l = Ok s -> Forall qc s.
+Proof.
+  intros Hw H. unfold urlencode in H. apply rbind_ok in H. destruct H as (st & Hst & H). inversion H; subst.
+  assert (G : forall l st st', cinv st -> Forall wf_pair l -> urlencode_loop st l = Ok st' -> cinv st').
+  { clear. induction l as [|kv r IH]; intros st st' Hi Hw H; simpl in H; [inversion H; subst; assumption|].
+    inversion Hw as [|? ? [Hwk Hwv] Hwr]; subst. apply rbind_ok in H. destruct H as (st1 & H1 & H).
+    eapply IH; [|eassumption|eassumption]. unfold urlencode_step in H1.
+    apply rbind_ok in H1. destruct H1 as (k & Hk & H1). apply rbind_ok in H1. destruct H1 as (st2 & H2 & H1).
+    inversion H1; subst. pose proof (quote_via_qchars _ _ Hwk Hk) as Hkc.
+    assert (G2 : cinv st2).
+    { destruct (snd kv) as [|v|l'] eqn:Ev; simpl in Hwv.
+      - inversion H2; subst. apply emit_cinv; auto; try constructor.
+      - destruct v as [t|b|z|kk sh];
+          try (apply rbind_ok in H2; destruct H2 as (qv & Hqv & H2); inversion H2; subst;
+               apply emit_cinv; auto; eapply quote_via_qchars; eassumption).
+        eapply emit_seq_cinv; [| |apply show_byte_wf|eassumption]; assumption.
+      - eapply emit_seq_cinv; eassumption. }
+    destruct G2 as [G21 G22]. split; [assumption|right; reflexivity]. }
+  apply (G l ([], []) st); auto. split; [constructor|left; reflexivity].
+Qed.
+
+(* ------------------------------------------------------------ the whole URL through the reference decoder *)
+Definition wf_query (q : option query) : Prop :=
+  match q with
+  | Some (QPairs l) => Forall wf_pair l
+  | Some (QStr t) => forallb valid_scalar t = true
+  | None => True
+  end.
+Definition wf_anchor (a : option pval) : Prop := match a with Some v => wf_val v | None => True end.
+
+(* what decoding the query text has to give *)
+Definition query_decodes (q : option query) (qt : text) : Prop :=
+  match q with
+  | None => qt = []
+  | Some (QStr t) => unquote_text qt = Some t
+  | Some (QPairs l) => forall ps, spec_pairs l = Some ps -> parse_qsl qt = Some ps
+  end.
+
+Lemma qc_nil : Forall qc []. Proof. constructor. Qed.
+#[local] Hint Resolve qc_nil : core.
+
+Lemma query_string_spec q qs :
+  wf_query q -> query_string q = Ok qs ->
+  exists qt, ((qs = [] /\ qt = []) \/ qs = 63 :: qt) /\ ~ In 35 qt /\ Forall qc qt /\ query_decodes q qt.
+Proof.
+  intros Hw H. destruct q as [[t|l]|]; simpl in *.
+  - destruct t as [|c r].
+    + inversion H; subst. exists []. split; [left; auto|]. split; [auto|]. split; [auto|reflexivity].
+    + simpl in H. apply rbind_ok in H. destruct H as (s & Hs & H). inversion H; subst.
+      destruct (query_string_roundtrip _ _ Hw Hs) as [R1 R2]. exists s.
+      split; [right; reflexivity|]. split; [assumption|]. split; [|assumption].
+      eapply url_quote_qchars; [apply Facts_ok_query_str_safe| |eassumption]. exact I.
+  - destruct l as [|p l].
+    + inversion H; subst. exists []. split; [left; auto|]. split; [auto|]. split; [auto|].
+      intros ps Hps. inversion Hps; subst. reflexivity.
+    + simpl in H. apply rbind_ok in H. destruct H as (s & Hs & H). inversion H; subst.
+      pose proof (urlencode_chars _ _ Hw Hs) as Hc. exists s.
+      split; [right; reflexivity|]. split; [apply qc_no_hash; assumption|]. split; [assumption|].
+      intros ps Hps. apply (proj1 (query_roundtrip _ _ _ Hw Hs Hps)).
+  - inversion H; subst. exists []. split; [left; auto|]. split; [auto|]. split; [auto|reflexivity].
+Qed.
+
+Lemma fragment_spec a fr :
+  wf_anchor a -> fragment a = Ok fr ->
+  exists f, ((fr = [] /\ f = []) \/ fr = 35 :: f) /\ Forall qc f
+            /\ (forall t, spec_anchor a = Some t -> unquote_text f = Some t).
+Proof.
+  intros Hw H. destruct a as [v|]; simpl in *.
+  - destruct (truthy v) eqn:Et.
+    + apply rbind_ok in H. destruct H as (q & Hq & H). inversion H; subst. exists q.
+      split; [right; reflexivity|]. split.
+      * eapply url_quote_qchars; [apply Facts_ok_anchor_quote_safe| |]; eassumption.
+      * intros t Ht. pose proof Facts_ok_anchor_quote_safe as HF. apply query_safe_ok_parts in HF.
+        destruct HF as (Hg & _). apply good_safe_spec in Hg. destruct Hg.
+        eapply url_quote_roundtrip; eassumption.
+    + inversion H; subst. exists []. split; [left; auto|]. split; [auto|]. intros t Ht. inversion Ht; reflexivity.
+  - inversion H; subst. exists []. split; [left; auto|]. split; [auto|]. intros t Ht. inversion Ht; reflexivity.
+Qed.
+
+Lemma cut_ref_generated base qs fr qt f :
+  ~ In 35 base -> ~ In 63 base ->
+  ((qs = [] /\ qt = []) \/ qs = 63 :: qt) -> ~ In 35 qt ->
+  ((fr = [] /\ f = []) \/ fr = 35 :: f) ->
+  cut_ref (base ++ qs ++ fr) = (base, qt, f).
+Proof.
+  intros B35 B63 Hq Q35 Hf. unfold cut_ref.
+  assert (N35 : ~ In 35 (base ++ qs)).
+  { rewrite in_app_iff. intros [H|H]; [auto|]. destruct Hq as [[-> _]| ->]; [destruct H|].
+    destruct H as [H|H]; [lia|auto]. }
+  assert (C63 : cut 63 (base ++ qs) = (base, match qs with [] => None | _ => Some qt end) /\ (qs = [] -> qt = [])).
+  { destruct Hq as [[-> ->]| ->].
+    - rewrite app_nil_r, cut_none by assumption. auto.
+    - rewrite cut_app by assumption. split; [reflexivity|discriminate]. }
+  destruct C63 as [C63 Hqe].
+  destruct Hf as [[-> ->]| ->].
+  - rewrite app_nil_r, cut_none by assumption. rewrite C63. destruct qs; [rewrite Hqe|]; reflexivity.
+  - rewrite app_assoc, cut_app by assumption. rewrite C63. destruct qs; [rewrite Hqe|]; reflexivity.
+Qed.
+
+(* route_url: produced URL = app ++ path ++ suffix ++ ?query ++ #fragment; the reference decoder
+   finds exactly these parts, every character after the application URL is allowed by RFC 3986
+   in its component, and query, anchor and elements decode to what was supplied *)
+Theorem route_url_decodes c e rs n els o kw u :
+  wf_query (o_query o) -> wf_anchor (o_anchor o) ->
+  join_elements_c c els = join_elements els ->
+  route_url c e rs n els o kw = Ok u ->
+  exists app path sfx qt f,
+    parse_app e o = Ok app
+    /\ Forall pc (path ++ sfx) /\ Forall qc qt /\ Forall qc f
+    /\ (~ In 35 app -> ~ In 63 app -> cut_ref u = (app ++ path ++ sfx, qt, f))
+    /\ query_decodes (o_query o) qt
+    /\ (forall t, spec_anchor (o_anchor o) = Some t -> unquote_text f = Some t)
+    /\ (els <> [] -> exists s ts, (sfx = s \/ sfx = 47 :: s)
+                                  /\ spec_elements els = Some ts /\ decode_segments s = Some ts).
+Proof.
+  intros Hwq Hwa Hc H. unfold route_url in H. destruct (assoc n rs) as [p|]; [|discriminate].
+  rewrite parse_url_overrides_eq in H.
+  apply rbind_ok in H. destruct H as ([[app qs] fr] & H0 & H).
+  apply rbind_ok in H0. destruct H0 as (app' & Happ & H0). apply rbind_ok in H0. destruct H0 as ([qs' fr'] & Ht & H0).
+  inversion H0; subst. clear H0. simpl in H.
+  unfold tail_parts in Ht. apply rbind_ok in Ht. destruct Ht as (qs0 & Hqs & Ht).
+  apply rbind_ok in Ht. destruct Ht as (fr0 & Hfr & Ht). inversion Ht; subst. clear Ht.
+  apply rbind_ok in H. destruct H as (path & Hp & H). apply rbind_ok in H. destruct H as (sfx & Hs & H).
+  inversion H; subst. clear H.
+  destruct (query_string_spec _ _ Hwq Hqs) as (qt & Q1 & Q2 & Q3 & Q4).
+  destruct (fragment_spec _ _ Hwa Hfr) as (f & F1 & F2 & F3).
+  pose proof (generate_chars _ _ _ Hp) as Pc.
+  assert (Sc : Forall pc sfx /\ (els <> [] -> exists s ts, (sfx = s \/ sfx = 47 :: s)
+                                  /\ spec_elements els = Some ts /\ decode_segments s = Some ts)).
+  { destruct els as [|x els'].
+    - inversion Hs; subst. split; [constructor|]. intros Hne; contradiction.
+    - rewrite Hc in Hs. apply rbind_ok in Hs. destruct Hs as (s & Hj & Hs).
+      pose proof (join_elements_chars _ _ Hj) as Jc.
+      assert (Hne : x :: els' <> []) by discriminate.
+      destruct (elements_roundtrip _ _ Hne Hj) as (ts & T1 & T2).
+      inversion Hs; subst. split.
+      + destruct (endswith_char 47 path); [assumption|constructor; [reflexivity|assumption]].
+      + intros _. exists s, ts. split; [|auto]. destruct (endswith_char 47 path); auto. }
+  destruct Sc as [Sc Se].
+  exists app, path, sfx, qt, f. repeat split; auto.
+  - apply Forall_app; auto.
+  - intros A35 A63.
+    match goal with |- cut_ref (?a ++ ?p ++ ?s ++ ?q ++ ?r) = _ =>
+      replace (a ++ p ++ s ++ q ++ r) with ((a ++ p ++ s) ++ q ++ r) by (rewrite <- !app_assoc; reflexivity) end.
+    destruct (pc_no_delims _ Pc) as [P63 P35]. destruct (pc_no_delims _ Sc) as [S63 S35].
+    apply cut_ref_generated; auto; rewrite !in_app_iff; tauto.
+Qed.
+
+(* non-vacuity: a route with a placeholder and a star, Unicode everywhere *)
+Example route_url_example :
+  let e := mkEnv [104;116;116;112] None [108] [56;48] [47;109;121;32;97;112;112] in     (* /my app *)
+  let p := mkPat [47;120;47] [([105;100], [])] None in                                    (* /x/{id} *)
+  let o := mkOv None None None None (Some (QPairs [(PStr [107;32], QVSeq [PStr [233]; PInt 2]); (PStr [110], QVNone)]))
+                (Some (PStr [8364;35])) in
+  route_url [] e [([114], p)] [114] [PStr [97;47;98]; PBytes [195;169]] o [([105;100], KScalar (PInt 7))]
+  = Ok [104;116;116;112;58;47;47;108;47;109;121;37;50;48;97;112;112;47;120;47;55;47;97;37;50;70;98;47;37;67;51;37;65;57;
+        63;107;43;61;37;67;51;37;65;57;38;107;43;61;50;38;110;61;35;37;69;50;37;56;50;37;65;67;37;50;51].
+Proof. vm_compute. reflexivity. Qed.
+
+(* ------------------------------------------------------------ resource_url through the reference decoder *)
+Lemma virtual_path_chars names vp : virtual_path names = Ok vp -> Forall pc vp.
+Proof.
+  pose proof Facts_ok_path_tuple_safe as HF. unfold segment_safe_ok in HF.
+  apply andb_true_iff in HF. destruct HF as [HF _].
+  unfold virtual_path, join_path_tuple. intros H. apply rbind_ok in H. destruct H as (p & Hp & H).
+  apply rbind_ok in Hp. destruct Hp as (qs & Hqs & Hp).
+  assert (Hj : Forall pc (join [47] qs)).
+  { apply Forall_join; [|apply pc47]. eapply mapM_Forall; [|eassumption]. intros x y. apply qps_chars; assumption. }
+  assert (Hpc : Forall pc p).
+  { simpl in Hp. destruct (join [47] qs); inversion Hp; subst; [apply pc47|assumption]. }
+  destruct names; inversion H; subst; [assumption|]. apply Forall_app. split; [assumption|apply pc47].
+Qed.
+
+Theorem resource_url_decodes c e names els o u :
+  wf_query (o_query o) -> wf_anchor (o_anchor o) ->
+  join_elements_c c els = join_elements els ->
+  resource_url c e names els o = Ok u ->
+  exists app vp sfx qt f,
+    parse_app e o = Ok app /\ virtual_path names = Ok vp
+    /\ Forall pc (vp ++ sfx) /\ Forall qc qt /\ Forall qc f
+    /\ (~ In 35 app -> ~ In 63 app -> cut_ref u = (app ++ vp ++ sfx, qt, f))
+    /\ query_decodes (o_query o) qt
+    /\ (forall t, spec_anchor (o_anchor o) = Some t -> unquote_text f = Some t)
+    /\ (els <> [] -> exists ts, spec_elements els = Some ts /\ decode_segments sfx = Some ts).
+Proof.
+  intros Hwq Hwa Hc H. unfold resource_url in H. apply rbind_ok in H. destruct H as (vp & Hvp & H).
+  rewrite parse_url_overrides_eq in H.
+  apply rbind_ok in H. destruct H as ([[app qs] fr] & H0 & H).
+  apply rbind_ok in H0. destruct H0 as (app' & Happ & H0). apply rbind_ok in H0. destruct H0 as ([qs' fr'] & Ht & H0).
+  inversion H0; subst. clear H0. simpl in H.
+  unfold tail_parts in Ht. apply rbind_ok in Ht. destruct Ht as (qs0 & Hqs & Ht).
+  apply rbind_ok in Ht. destruct Ht as (fr0 & Hfr & Ht). inversion Ht; subst. clear Ht.
+  apply rbind_ok in H. destruct H as (sfx & Hs & H). inversion H; subst. clear H.
+  destruct (query_string_spec _ _ Hwq Hqs) as (qt & Q1 & Q2 & Q3 & Q4).
+  destruct (fragment_spec _ _ Hwa Hfr) as (f & F1 & F2 & F3).
+  pose proof (virtual_path_chars _ _ Hvp) as Pc.
+  assert (Sc : Forall pc sfx /\ (els <> [] -> exists ts, spec_elements els = Some ts /\ decode_segments sfx = Some ts)).
+  { destruct els as [|x els'].
+    - inversion Hs; subst. split; [constructor|]. intros Hne; contradiction.
+    - rewrite Hc in Hs. split; [eapply join_elements_chars; eassumption|].
+      intros Hne. apply elements_roundtrip; assumption. }
+  destruct Sc as [Sc Se].
+  exists app, vp, sfx, qt, f. repeat split; auto.
+  - apply Forall_app; auto.
+  - intros A35 A63.
+    match goal with |- cut_ref (?a ++ ?p ++ ?s ++ ?q ++ ?r) = _ =>
+      replace (a ++ p ++ s ++ q ++ r) with ((a ++ p ++ s) ++ q ++ r) by (rewrite <- !app_assoc; reflexivity) end.
+    destruct (pc_no_delims _ Pc) as [P63 P35]. destruct (pc_no_delims _ Sc) as [S63 S35].
+    apply cut_ref_generated; auto; rewrite !in_app_iff; tauto.
 Qed.
